@@ -283,9 +283,10 @@ PROPS["C26"] = {
 PROPS["C22"] = {
     "title": "Runtime errors are never swallowed",
     "kani": [],
-    "e2": ["c22", "iters"],
+    "e2": ["c22", "iters", "orderby"],
     "functions_encoded": ["executor::plan_tail::execute_distinct::{closure#0}", "execute_union::{closure#0}",
-                          "plan_iterators::FilterIter::next", "runtime_limits::RuntimeGuardIter::next"],
+                          "plan_iterators::FilterIter::next", "runtime_limits::RuntimeGuardIter::next",
+                          "plan_mid::execute_order_by", "execute_order_by::{closure#0}"],
     "bounds": {"input": "one item of the input stream, variant (Ok row / Err) symbolic", "models": "row key construction opaque; "
                "HashSet::insert forks into {new key, seen key}"},
     "stubs": ["Row::columns / iter / map / collect / join: opaque values (the key's content does not matter to the obligation)",
